@@ -1,1 +1,36 @@
-fn main(){ println!("hi"); }
+mod build;
+mod corpus;
+mod ctx;
+mod driver;
+mod evidence;
+mod exec;
+mod gen;
+mod lending;
+mod model;
+mod oracle;
+mod owning;
+mod props;
+mod rng;
+mod sched;
+mod shrink;
+mod special;
+mod spec;
+mod world;
+
+fn main() {
+    let args: Vec<String> = std::env::args().collect();
+    let code = match args.get(1).map(|s| s.as_str()) {
+        Some("run") => driver::main_run(&args[2..]),
+        Some("worker") => {
+            driver::main_worker(&args[2..]);
+            0
+        }
+        Some("replay") => driver::main_replay(&args[2..]),
+        Some("shrink") => driver::main_shrink(&args[2..]),
+        _ => {
+            eprintln!("usage: simctl run --prop Cxx [--tier quick|thorough] [--seed N] [--workers K] | replay <file> | shrink <in> <out>");
+            2
+        }
+    };
+    std::process::exit(code);
+}
